@@ -303,7 +303,7 @@ class ChainControl(BaseAPIClass):
                     controls[ssc["site"]] = ssc["contr"]
                 else:
                     controls[ssc["site"]] = \
-                        controls[ssc["site"]] @ ssc["contr"]
+                        ssc["contr"] @ controls[ssc["site"]]
 
         if empty:
             return None
